@@ -860,6 +860,22 @@ fn render_x(ts: &[XTok]) -> String {
     s
 }
 
+/// Streams for the differential sub-check: mostly free soups, one in ten starts with a long
+/// \\expandafter chain (12..48 links) so that a bounded look-ahead of the optimised implementation shows.
+fn diff_stream_strategy() -> impl Strategy<Value = Vec<XTok>> {
+    let xa = prop_oneof![3 => Just(XTok::Xa), 1 => Just(XTok::XaAlias), 1 => Just(XTok::XaActive)];
+    let long = (proptest::collection::vec((xa, xtok_strategy()), 12..48), proptest::collection::vec(xtok_strategy(), 0..6)).prop_map(|(pairs, tail)| {
+        let mut v = vec![];
+        for (a, b) in pairs {
+            v.push(a);
+            v.push(b);
+        }
+        v.extend(tail);
+        v
+    });
+    prop_oneof![9 => proptest::collection::vec(xtok_strategy(), 0..24), 1 => long]
+}
+
 fn xtok_strategy() -> impl Strategy<Value = XTok> {
     prop_oneof![
         6 => Just(XTok::Xa),
@@ -955,6 +971,7 @@ fn diff_oracle(ts: &Vec<XTok>, case: &mut Case) -> Verdict {
     }
     case.class_if(max_chain >= 2, "chain>=2");
     case.class_if(max_chain >= 4, "chain>=4");
+    case.class_if(max_chain >= 17, "chain>=17");
     case.class_if(ts.contains(&XTok::XaActive), "active-character alias of \\expandafter");
     // First in error-stop mode (the first error ends the run); if it ended in an error, again with
     // recovery from every recoverable error, so that what follows the error is compared as well.
@@ -1147,7 +1164,10 @@ fn chain_strategy() -> impl Strategy<Value = Vec<XTok>> {
         1 => m().prop_map(|m| vec![m]),
         1 => Just(vec![XTok::Relax]),
     ];
-    let aimed = (proptest::collection::vec((xa(), stepped_over), 0..6), target).prop_map(|(pairs, target)| {
+    // mostly short chains; one in ten is long (an implementation may bound its look-ahead)
+    let pair = (xa(), stepped_over);
+    let pairs = prop_oneof![9 => proptest::collection::vec(pair.clone(), 0..6), 1 => proptest::collection::vec(pair, 12..48)];
+    let aimed = (pairs, target).prop_map(|(pairs, target)| {
         let mut v = vec![];
         for (a, b) in pairs {
             v.push(a);
@@ -1180,6 +1200,8 @@ fn chain_oracle(ts: &Vec<XTok>, simple: bool, case: &mut Case) -> Verdict {
     let chain = k / 2;
     case.class_if(chain >= 2, "chain>=2");
     case.class_if(chain >= 4, "chain>=4");
+    case.class_if(chain >= 17, "chain>=17");
+    case.class_if(chain >= 33, "chain>=33");
     case.class_if(s.contains(&XTok::XaActive), "active-character alias of \\expandafter");
     case.class(match kind {
         "macro" => "expanded token: macro",
@@ -1348,7 +1370,7 @@ pub fn run(ctx: &Ctx) {
     let n = ctx.tier.pick(250_000u64, 3_000_000u64);
     run_generated(ctx, "conditionals", n, cond_case_strategy, |c: &CondCase, case| cond_oracle(ctx, c, case));
     let n = ctx.tier.pick(120_000u64, 2_000_000u64);
-    run_generated(ctx, "expandafter_differential", n, || proptest::collection::vec(xtok_strategy(), 0..24), |ts: &Vec<XTok>, case| diff_oracle(ts, case));
+    run_generated(ctx, "expandafter_differential", n, diff_stream_strategy, |ts: &Vec<XTok>, case| diff_oracle(ts, case));
     let n = ctx.tier.pick(90_000u64, 1_000_000u64);
     run_generated(ctx, "expandafter_model_optimised", n, chain_strategy, |ts: &Vec<XTok>, case| chain_oracle(ts, false, case));
     run_generated(ctx, "expandafter_model_simple", n / 2, chain_strategy, |ts: &Vec<XTok>, case| chain_oracle(ts, true, case));
